@@ -8,23 +8,7 @@ from .c_send import CONN
 OS = CONN + '._open_streams'
 
 
-def bounded_streams_setup(I, loc):
-    """BOUNDED STAND-IN for the body of _open_streams: the streams dict holds
-    at most 3 entries (distinct symbolic ids, symbolic states)."""
-    conn_setup(I, loc)
-    o = I.heap.get(loc['self'])
-    m = I.heap.get(o.fields['streams'])
-    n = I.choose([True] * 0 + [I.fresh('nstreams', 'int') == i for i in range(4)], 'streams-in-dict',
-                 names=['0', '1', '2', '3'])
-    keys = [I.fresh('sid%d' % i, 'int') for i in range(n)]
-    for i, k in enumerate(keys):
-        for j in range(i):
-            I.assume(keys[j] != k)
-    q = z3.Int('dk')
-    I.assume(z3.ForAll([q], m.dom[q] == z3.Or(*[q == k for k in keys]) if keys else z3.Not(m.dom[q])))
-    m.explicit_keys = keys
-    m.size = len(keys)
-    I.bounds_used.add('H2Connection._open_streams body verified for dictionaries of at most 3 streams')
+from .common import conn_setup_bounded_streams as bounded_streams_setup
 
 
 contract(OS, props=['C10', 'C27', 'C20'],
